@@ -121,7 +121,7 @@ CHECKS = {
             "design_ref": "DESIGN.md §4 C05",
         },
         "runs": [conc("HarnessC05Quick", ["c05-end"]), conc("HarnessC05Seq", ["c05-end"]), conc("HarnessC05AfterDone", ["c05-done-end"]),
-                 conc("HarnessC05Thorough", ["c05-end"], ["thorough"], maxpaths=1000000, timeout=3000), conc("HarnessC05Three", ["c05-end"], ["thorough"], maxpaths=1000000, timeout=3000)],
+                 conc("HarnessC05Thorough", ["c05-end"], ["thorough"], maxpaths=1000000, timeout="3000s"), conc("HarnessC05Three", ["c05-end"], ["thorough"], maxpaths=1000000, timeout="3000s")],
         "bounds": {"quick": "2 sources; 1+1 reports with 2 concurrent reads, 2+1 reports without reader; a nested pointer section set or not by the first update; all values symbolic; all schedules",
                    "thorough": "2+2 reports with 2 reads; 3+1 reports with 1 read"},
         "outside": "longer histories; 2^64 serial wrap",
@@ -286,9 +286,12 @@ CHECKS = {
             {"entry": M + "/sources/env.HarnessC16EnvNamedCollections", "pkgs": ENVP + ["sort"], "must_reach": ["c16-types-end"]},
             {"entry": M + "/sources/env.HarnessC16EnvPointers", "pkgs": ENVP + ["sort"], "must_reach": ["c16-types-end"]},
             {"entry": M + "/sources/env.HarnessC16EnvNamedElems", "pkgs": ENVP + ["sort"], "must_reach": ["c16-types-end"]},
+            {"entry": M + "/sources/env.HarnessC16EnvOddTags", "pkgs": ENVP + ["sort"], "must_reach": ["c16-types-end"]},
             {"entry": M + "/sources/env.HarnessC16EnvGen2", "pkgs": ENVP + ["sort"], "must_reach": ["c16-envgen-end"]},
             {"entry": M + "/sources/env.HarnessC16EnvGen3", "pkgs": ENVP + ["sort"], "must_reach": ["c16-envgen-end"], "tiers": ["thorough"]},
             {"entry": M + "/sources/flag.HarnessC16FlagGen2", "pkgs": FLAGP, "must_reach": ["c16-flaggen-end"]},
+            {"entry": M + "/sources/flag.HarnessC16FlagNamed", "pkgs": FLAGP, "must_reach": ["c16-flag-named-end"]},
+            {"entry": M + "/sources/pflag.HarnessC16PflagNamed", "pkgs": PFLAGP, "must_reach": ["c16-pflag-named-end"]},
             {"entry": M + "/sources/pflag.HarnessC16PflagGen2", "pkgs": PFLAGP, "must_reach": ["c16-pflaggen-end"]},
             {"entry": M + "/sources/flag.HarnessC16FlagPtrLeaves", "pkgs": FLAGP, "must_reach": ["c16-flag-ptr-end"]},
             {"entry": M + "/transform.HarnessC10TypeSubst", "pkgs": TFP, "must_reach": ["c10-typesubst-end"]},
